@@ -53,6 +53,10 @@ def plan(tier, seed):
         cfgs.append(dict(kind="e2e", cc=cc, delays=[1, 1], est=0.5, size=2, K=8, fid=10000))
         cfgs.append(dict(kind="e2e", cc=cc, delays=[1, 1], est=4, size=3, K=8, fid=20007))
         cfgs.append(dict(kind="e2e", cc=cc, delays=[1, 1], est=0.5, size=2, K=8, flags=1))
+    # paths that reorder: a delayed data segment or ACK is overtaken by later ones ("any path that delays ... packets")
+    for cc in ("reno", "cubic"):
+        for (est, size) in ((0.5, 2), (4, 3), (0.5, 4)):
+            cfgs.append(dict(kind="e2e", cc=cc, delays=[1, 1], est=est, size=size, K=8 if quick else 12, reorder=1))
     # two connections side by side in one program (state shared between senders would couple them)
     for cc in ("reno", "cubic"):
         for size in ((2, 4) if quick else (2, 3, 4, 6)):
@@ -131,35 +135,50 @@ def exec_sink(ch, cfg):
 
 
 class Path:
-    """FIFO path with constant delay; drops transmissions by index (chosen lazily, budgeted)"""
+    """path with constant delay; transmissions (by index, chosen lazily, budgeted) may be dropped, delivered 4 s late with
+    everything behind them held back (FIFO), or - on paths created with reorder=True - delivered 4 s late while later
+    transmissions overtake them.  In-order deliveries are chained, so rounding in now + (at - now) can never reorder them."""
 
-    def __init__(self, env, ch, name, delay, dst, K, log):
+    def __init__(self, env, ch, name, delay, dst, K, log, reorder=False):
         self.env = env; self.ch = ch; self.name = name; self.delay = delay; self.dst = dst; self.K = K; self.log = log
         self.n = 0
         self.drops = 0
         self.rto = lambda: None
         self.last = 0
+        self.prev = None            # delivery event of the previous in-order transmission
+        self.reorder = reorder
 
     def put(self, pkt):
         idx = self.n
         self.n += 1
         f = 0
         if idx < self.K:
-            f = self.ch.choose(3, lambda c, idx=idx: "%s transmission #%d %s" % (self.name, idx, ["delivered", "DROPPED", "delivered 4 late"][c]))
+            kinds = ["delivered", "DROPPED", "delivered 4 late"] + (["delivered 4 late, OVERTAKEN by later ones"] if self.reorder else [])
+            f = self.ch.choose(len(kinds), lambda c, idx=idx: "%s transmission #%d %s" % (self.name, idx, kinds[c]))
         drop = f == 1
         self.log.append((self.name, idx, self.env.now, pkt.packet_id, getattr(pkt, "ack", None) if self.name == "ack" else None, f,
                          self.rto() if self.name == "data" else None))
         if drop:
             self.drops += 1
             return
-        # FIFO: never overtake an earlier delivery
+        if f == 3:
+            self.env.process(self.deliver(pkt, self.env.now + self.delay + 4, None, None))
+            return
+        # FIFO: never overtake an earlier in-order delivery
         at = max(self.env.now + self.delay + (4 if f == 2 else 0), self.last)
         self.last = at
-        self.env.process(self.deliver(pkt, at - self.env.now))
+        done = self.env.event()
+        self.env.process(self.deliver(pkt, at, self.prev, done))
+        self.prev = done
 
-    def deliver(self, pkt, d):
-        yield self.env.timeout(d)
+    def deliver(self, pkt, at, prev, done):
+        if prev is not None and not prev.processed:
+            yield prev
+        if at > self.env.now:
+            yield self.env.timeout(at - self.env.now)
         self.dst.put(pkt)
+        if done is not None:
+            done.succeed()
 
 
 def exec_e2e(ch, cfg):
@@ -174,8 +193,8 @@ def exec_e2e(ch, cfg):
     try:
         sender = TCPPacketGenerator(env, flow=flow, cc=cc, element_id="s", rtt_estimate=cfg["est"])
         sink = TCPSink(env, rec_arrivals=False, rec_waits=False) if cfg.get("flags") else TCPSink(env)
-        data = Path(env, ch, "data", cfg["delays"][0], sink, cfg["K"], log)
-        ack = Path(env, ch, "ack", cfg["delays"][1], sender, cfg["K"], log)
+        data = Path(env, ch, "data", cfg["delays"][0], sink, cfg["K"], log, reorder=bool(cfg.get("reorder")))
+        ack = Path(env, ch, "ack", cfg["delays"][1], sender, cfg["K"], log, reorder=bool(cfg.get("reorder")))
         sender.out = data
         sink.out = ack
         data.rto = lambda: sender.rto
@@ -208,7 +227,7 @@ def exec_e2e(ch, cfg):
     res.digest = (tuple(x[:6] for x in log), err and err[:2])
     drops = [x for x in log if x[5]]
     res.nontrivial = bool(drops)
-    late = any(x[5] == 2 for x in log)
+    late = any(x[5] in (2, 3) for x in log)
     res.ev("C16.noraise")
     if err:
         res.bad("C16.noraise", "%s:%s@%s" % (tag, err[0], err[1]), "%s; drops %r; %d transmissions" % (err[2], [(x[0], x[1]) for x in drops], len(log)))
